@@ -25,6 +25,11 @@ Lemma regression_F03a :
   ty_ok (resolve_format s_uuid) = true /\ ty_ok (resolve_format [116;105;109;101]) = true.
 Proof. vm_compute. repeat split. Qed.
 
+(* F03c (fixed): a self reference through an array is an ordinary list of the class for the converter *)
+Lemma regression_F03c : forall c,
+  resolve (PArr (PSelf c)) = TList (TData c) /\ ty_ok (resolve (PArr (PSelf c))) = true.
+Proof. intro c. split; reflexivity. Qed.
+
 (* ======================================================================================
    Meta maps of a generated class are mutually inverse bijections
    ====================================================================================== *)
